@@ -3,7 +3,10 @@ mem_oracle.py — the property-level oracle of C08: a plain byte store, independ
 Lean model.  zone key -> { address -> (descriptor, endianness of the write, serial of the write) }.
 A descriptor is ["r", byte] or ["s", register id, value-byte index] (see mem_gen.value_bytes).
 """
+import itertools
 from mem_gen import mem_bytes, resolve, value_len
+
+_SER = itertools.count(1)     # serial numbers of writes (only used to classify overlaps)
 
 
 class Store(object):
@@ -62,10 +65,10 @@ class Store(object):
             key, off = loc
             mb = mem_bytes(op["val"], op["en"])
             self.last_class = self.classify(key, off, len(mb))
-            self.serial += 1
+            ser = next(_SER)
             d = self.z.setdefault(key, {})
             for i, b in enumerate(mb):
-                d[off + i] = (b, op["en"], self.serial)
+                d[off + i] = (b, op["en"], ser)
             return "ok"
         if k == "read":
             loc = resolve(op["addr"])
@@ -86,10 +89,8 @@ class Store(object):
             return "ok"
         if k == "merge":
             other = Store()
-            other.serial = self.serial + 1000
             for o in op["ops"]:
                 other.apply(o)
-            self.serial = other.serial
             for key, d in other.z.items():
                 self.z.setdefault(key, {}).update(d)
             return "ok"
@@ -161,3 +162,39 @@ class Store(object):
         if not d:
             return None
         return min(d), max(d) + 1
+
+
+class Workspace(object):
+    """one byte store per live map; `fork` duplicates a store, nothing else couples them."""
+
+    def __init__(self):
+        self.s = [Store()]
+
+    def apply(self, op):
+        m = op.get("m", 0)
+        if m >= len(self.s):
+            return "nomap"
+        k = op["k"]
+        if k == "fork":
+            self.s.append(self.s[m].copy())
+            return "ok"
+        if k == "mergecopy":
+            if op["src"] >= len(self.s):
+                return "nomap"
+            for key, d in self.s[op["src"]].z.items():
+                self.s[m].z.setdefault(key, {}).update(d)
+            return "ok"
+        return self.s[m].apply(op)
+
+    def judge(self, op, expected, real):
+        m = op.get("m", 0)
+        if m >= len(self.s):
+            return real == expected
+        return self.s[m].judge(op, expected, real)
+
+    def state_ok(self, maps):
+        return isinstance(maps, list) and len(maps) == len(self.s) and all(s.state_ok(z) for s, z in zip(self.s, maps))
+
+    def last_class(self, op):
+        m = op.get("m", 0)
+        return self.s[m].last_class if m < len(self.s) else None
